@@ -733,8 +733,6 @@ impl Parser {
                 lexem = self.next_lexem();
             } else if s == "+" {
                 // nop
-            } else {
-                self.drop_lexem();
             }
         }
 
